@@ -223,7 +223,7 @@ func CheckC06(e *Env) (int, error) {
 	thorough := e.Tier == "thorough"
 	var jobs []c06Job
 	sd := func(name string, i int) uint64 { return plan.Derive(e.Seed, "C06/"+name, uint64(i)) }
-	for _, k := range []string{"faults", "boundary", "structured", "stalls"} {
+	for _, k := range []string{"faults", "boundary", "structured", "stalls", "panics"} {
 		jobs = append(jobs, c06Job{Kind: k, Seed: sd(k, 0), Keep: 2, part: true})
 	}
 	addComps := func(n int) {
@@ -354,7 +354,7 @@ func CheckC06(e *Env) (int, error) {
 	cov := map[string]interface{}{
 		"evaluations":                 tot.Cases,
 		"distinct_nontrivial":         distinct,
-		"rule":                        "a case = NewMnemonic(n, lang) against one device script; enumerated families (every failure point k x 8 error kinds (EOF, unexpected EOF, plain, wrapped EOF, closed pipe, Temporary()/Timeout(), EAGAIN, EINTR) x own-read/with-bytes x 3 fragmentations; error with the buffer-completing bytes; all compositions of need for the listed n; structured splits; stalls at every position) plus seeded compositions and seeded multi-fault scripts. Non-trivial: the device delivered >=1 byte or returned >=1 fault inside the call. Distinct: by digest of (n, sequence of (asked, delivered, error kind)); de-duplicated inside each worker job, jobs of different families/ranges are disjoint by construction, for chunked seeded jobs only the largest chunk per n is counted; cold-start repetitions are not counted.",
+		"rule":                        "a case = NewMnemonic(n, lang) against one device script; enumerated families (every failure point k x 8 error kinds (EOF, unexpected EOF, plain, wrapped EOF, closed pipe, Temporary()/Timeout(), EAGAIN, EINTR) x own-read/with-bytes x 3 fragmentations; a Read that panics (string or error value) at every failure point; error with the buffer-completing bytes; all compositions of need for the listed n; structured splits; stalls at every position) plus seeded compositions and seeded multi-fault scripts. Non-trivial: the device delivered >=1 byte or returned >=1 fault inside the call. Distinct: by digest of (n, sequence of (asked, delivered, error kind)); de-duplicated inside each worker job, jobs of different families/ranges are disjoint by construction, for chunked seeded jobs only the largest chunk per n is counted; cold-start repetitions are not counted.",
 		"exhaustive":                  false,
 		"exhaustive_parts":            "every (n,k,error kind,own/with-bytes) failure point; all 2^(need-1) compositions for n=12 (quick) and n=12,15,18 (thorough); every stall position",
 		"samples":                     samples,
